@@ -242,7 +242,7 @@ theorem allP_stmt (P : Pos → Prop) : ∀ (s : SStmt) (sfx : String) (off : Nat
     have he := fun o => allP_stmt P els sfx o (fun q hq => h q (by simp [stmtPosns, hq]))
     have hl := fun a b c' d => allP_cases P cases sfx p a b c' d hp (fun q hq => h q (by simp [stmtPosns, hq]))
     simp only [compileStmt, allP_append, allP_cons]
-    refine ⟨⟨⟨⟨hc, hp, allP_nil P⟩, hl _ _ _ _⟩, ?_⟩, hp, hp, allP_nil P⟩
+    refine ⟨⟨⟨⟨⟨hc, hp, allP_nil P⟩, hp, hp, hp, allP_nil P⟩, hl _ _ _ _⟩, ?_⟩, hp, hp, hp, allP_nil P⟩
     split
     · rw [allP_append, allP_cons]; exact ⟨⟨hp, allP_nil P⟩, he _⟩
     · exact allP_nil P
@@ -255,13 +255,13 @@ theorem allP_stmt (P : Pos → Prop) : ∀ (s : SStmt) (sfx : String) (off : Nat
     cases step with
     | none =>
       simp only [compileStmt, allP_append, allP_cons]
-      exact ⟨⟨⟨hlo, hst⟩, hhi⟩, ⟨⟨hp, hp, hp, allP_nil P⟩,
+      exact ⟨⟨⟨hlo, hst⟩, hhi⟩, ⟨⟨hp, hp, hp, hp, hp, hp, allP_nil P⟩,
         allP_forBody P sfx x t _ true p _ _ hp (hb _ _)⟩, hp, allP_nil P⟩
     | some s =>
       have hs := allP_expr P s (fun q hq => h q (by simp [stmtPosns, optExprPosns, hq]))
       have hsp : P s.pos := h _ (by simp [stmtPosns, optExprPosns, pos_mem_exprPosns s])
       simp only [compileStmt, allP_append, allP_cons]
-      exact ⟨⟨⟨hlo, hst⟩, hhi⟩, ⟨⟨⟨⟨⟨⟨hp, allP_nil P⟩, hs⟩, hp, hp, hp, hp, hp, hp, hp, hp, allP_nil P⟩,
+      exact ⟨⟨⟨hlo, hst⟩, hhi⟩, ⟨⟨⟨⟨⟨⟨hp, allP_nil P⟩, hs⟩, hp, hp, hp, hp, hp, hp, hp, hp, hp, hp, hp, allP_nil P⟩,
         allP_forBody P sfx x t _ false p _ _ hp (hb _ _)⟩, hp, hp, hp, hp, hp, allP_nil P⟩,
         allP_forBody P sfx x t _ true p _ _ hp (hb _ _)⟩, hp, hp, hsp, hp, allP_nil P⟩
   | .while c body p, sfx, off, h => by
@@ -395,12 +395,12 @@ theorem runtime_error_pos_within_program (prog : SProgram) (fuel c : Nat) (p : P
 
 /-! ## the hypotheses are satisfiable, the statements are not vacuous -/
 
-/-- `FOR x = 1 TO 3 STEP (2): y = 10 / x: NEXT` with distinct positions everywhere: 81 instructions, each
+/-- `FOR x = 1 TO 3 STEP (2): y = 10 / x: NEXT` with distinct positions everywhere: 84 instructions, each
 at one of the nine positions that occur in the statement; the zero-step error is at the STEP expression. -/
 example :
     let s : SStmt := .forLoop 0 .int (.lit (.int 1) ⟨3, 9⟩) (.lit (.int 3) ⟨3, 14⟩) (some (.paren (.lit (.int 2) ⟨3, 22⟩) ⟨3, 21⟩))
       (.assign 1 .sgl (.bin .divide (.lit (.int 10) ⟨4, 7⟩) (.var 0 .int ⟨4, 12⟩) .sgl ⟨4, 10⟩) ⟨4, 3⟩) ⟨3, 1⟩
-    (compileStmt "" 0 s).length = 81 ∧
+    (compileStmt "" 0 s).length = 84 ∧
     ((compileStmt "" 0 s).map (·.2)).eraseDups.length = 9 ∧
     (CInstr.throwZeroStep, (⟨3, 21⟩ : Pos)) ∈ compileStmt "" 0 s ∧
     (∀ ip ∈ compileStmt "" 0 s, ip.2 ∈ stmtPosns s) := by
